@@ -311,7 +311,7 @@ def f6(tier):
                 body += aop(o, k)
             cases.append(('MI', body + show_a))
     # records: update, alias, pass to function that mutates, nested read
-    rops = ['seta', 'setb', 'alias', 'call', 'swap']
+    rops = ['seta', 'setb', 'alias', 'call', 'swap', 'calias', 'alias3']
 
     def rop(o, k):
         r = V('r')
@@ -323,15 +323,19 @@ def f6(tier):
             return [('assign', 'r2', r), ('setfield', V('r2'), 'b', L(70 + k))]
         if o == 'call':
             return [('expr', ('call', 'mut', [r]))]
+        if o == 'calias':       # r2 names r only on some paths (decided at run time)
+            return [('if', B('>', ('field', r, 'a'), L(1)), [('assign', 'r2', r)], None), ('setfield', V('r2'), 'b', L(60 + k))]
+        if o == 'alias3':       # r2 is made to name a third record
+            return [('assign', 'r2', V('r3')), ('setfield', V('r2'), 'a', L(40 + k))]
         return [('decl', 't%d' % k, 'I', ('field', r, 'a')), ('setfield', r, 'a', ('field', r, 'b')), ('setfield', r, 'b', V('t%d' % k))]
     mut = ('fn', 'mut', [('z', 'Rec')], 'I', [('setfield', V('z'), 'a', B('+', ('field', V('z'), 'a'), L(100))), ('value', ('field', V('z'), 'a'))])
-    show_r = [P(('field', V('r'), 'a')), P(('field', V('r'), 'b')), P(('field', V('r2'), 'a')), P(('field', V('r2'), 'b'))]
+    show_r = [P(('field', V('r'), 'a')), P(('field', V('r'), 'b')), P(('field', V('r2'), 'a')), P(('field', V('r2'), 'b')), P(('field', V('r3'), 'a')), P(('field', V('r3'), 'b'))]
     for it in ('MI', 'BI'):
         for n in range(1, 4):
             for seq in itertools.product(rops, repeat=n):
                 if it == 'BI' and n > 2:
                     continue
-                body = [mut, ('decl', 'r', 'Rec', ('rec', L(1), L(2))), ('decl', 'r2', 'Rec', ('rec', L(8), L(9)))]
+                body = [mut, ('decl', 'r', 'Rec', ('rec', L(1), L(2))), ('decl', 'r2', 'Rec', ('rec', L(8), L(9))), ('decl', 'r3', 'Rec', ('rec', L(20), L(21)))]
                 for k, o in enumerate(seq):
                     body += rop(o, k)
                 cases.append((it, body + show_r))
